@@ -1,0 +1,74 @@
+//go:build verif
+
+package websocket
+
+// WebSocket transport adapter (property C17): the broker's bytes leave as exactly one binary message per Write;
+// what Read returns is what the current data message's reader returned, control frames being skipped. The
+// gorilla connection is behind the websocketConn interface: its calls are recorded events.
+
+import (
+	"io"
+
+	"github.com/gorilla/websocket"
+
+	vs "github.com/emitter-io/emitter/internal/verifspec"
+)
+
+func pre_ws(c *websocketTransport) bool { return c != nil && c.socket != nil }
+
+// a NextWriter / NextReader that reports no error returns a writer / reader
+//@ assume (websocketConn).NextWriter iface post=post_NextWriter
+func post_NextWriter(res0 io.WriteCloser, res1 error) bool { return res1 != nil || res0 != nil }
+
+//@ assume (websocketConn).NextReader iface post=post_NextReader
+func post_NextReader(res1 io.Reader, res2 error) bool { return res2 != nil || res1 != nil }
+
+// Write(b): one binary message, whose only Write carries exactly b, then closed - in that order; nothing else
+//@ verify (*websocketTransport).Write pre=pre_ws post=post_ws_Write props=C17
+func post_ws_Write(c *websocketTransport, b []byte, res0 int, res1 error) bool {
+	nw := vs.TraceFind("NextWriter")
+	if nw < 0 || vs.TraceCount("NextWriter") != 1 || vs.TraceArg[int](nw, 1) != websocket.BinaryMessage {
+		return false
+	}
+	if vs.TraceRet[error](nw, 1) != nil {
+		return vs.TraceCount(".Write") == 0 && res1 != nil
+	}
+	w := vs.TraceFind("Writer).Write")
+	if w < 0 || vs.TraceCount("Writer).Write") != 1 || !vs.SameBytes(vs.TraceArg[[]byte](w, 1), b) || res0 != vs.TraceRet[int](w, 0) {
+		return false
+	}
+	cl := vs.TraceFind("Closer).Close")
+	if vs.TraceRet[error](w, 1) != nil {
+		return cl < 0 && res1 != nil
+	}
+	return cl > w && vs.TraceCount("Closer).Close") == 1 && res1 == vs.TraceRet[error](cl, 0)
+}
+
+// Read(b): data comes only from the reader of a binary or text message; a message that ended yields (n, nil) and the
+// next Read moves on to the next message. Explored for up to two skipped control frames (stated bounded).
+//@ verify (*websocketTransport).Read pre=pre_ws post=post_ws_Read props=C17
+//@ loop (*websocketTransport).Read 0 unroll 3 bounded
+func post_ws_Read(c *websocketTransport, old_c websocketTransport, res0 int, res1 error) bool {
+	r := vs.TraceFind("Reader).Read")
+	if r < 0 { // no data was read: only because no data message could be obtained
+		n := vs.TraceCount("NextReader")
+		return old_c.reader == nil && n >= 1 && vs.TraceRet[error](vs.TraceFindNth("NextReader", n-1), 2) != nil && res1 != nil
+	}
+	if vs.TraceCount("Reader).Read") != 1 || res0 != vs.TraceRet[int](r, 0) {
+		return false
+	}
+	if old_c.reader == nil { // the reader used is that of the last NextReader, which was a data message
+		n := vs.TraceCount("NextReader")
+		last := vs.TraceFindNth("NextReader", n-1)
+		op := vs.TraceRet[int](last, 0)
+		if n < 1 || last > r || (op != websocket.BinaryMessage && op != websocket.TextMessage) {
+			return false
+		}
+	} else if vs.TraceCount("NextReader") != 0 {
+		return false
+	}
+	if vs.TraceRet[error](r, 1) == io.EOF {
+		return res1 == nil && c.reader == nil
+	}
+	return res1 == vs.TraceRet[error](r, 1)
+}
